@@ -120,7 +120,8 @@ class NodeLib(LibBase):
         if cls == "Splitter":
             f.update({"pallet_in_process": ("opt", IT), "mode": ("str",), "__pallet_items": ("list", IT)})
         if cls == "Combiner":
-            f.update({"pallet_in_process": ("opt", IT), "target_quantity_of_each_item": ("list", ("num", "int"))})
+            f.update({"pallet_in_process": ("opt", IT), "target_quantity_of_each_item": ("list", ("num", "int")),
+                      "__pallet_items": ("list", IT)})
         if cls == "Source":
             f.update({"item_length": ("num", "real"), "flow_item_type": ("str",), "inter_arrival_time": ("dyn",),
                       "stats.num_item_generated": ("num", "int"), "out_edge_events": ("list", EV)})
